@@ -211,6 +211,19 @@ CLAIMED = {
          "readelf on every run. MIPS GOT relocation words rest on the correspondence only. Overlapping segments and addresses >= 2^64 "
          "are outside the domain (model and falcon are still compared there).",
     technique="Lean 4 definitional model + theorems; generated-file correspondence check with a readelf self-test"),
+ "C03": dict(
+    category="proof",
+    text="For add/adds/sub/subs (immediate and shifted register), mov (register, wide), nop, b, bl, br, blr, ret: for every word of the "
+         "class, every address and every machine state, running the IL the lifter emits (a Lean mirror of the lifter, compared "
+         "syntactically with falcon's real output on every differential case) yields the registers, NZCV and next pc of an A64 "
+         "interpreter that decodes the raw word, written from the Arm pseudocode. For subs the C flag is proved to be the negation of the "
+         "architectural carry (known finding). Integer immediate-mode loads: block/body theorem for all non-faulting states, decode "
+         "glue by differential. All other accepted classes: four-way differential only (falcon executor / Lean IL model / Lean A64 "
+         "interpreter / mirror) over class-exhaustive word sweeps and boundary+random states.",
+    design_ref="DESIGN.md §6 C03",
+    note="The specification is written from knowledge of the Arm ARM, which is not in the sandbox (no second source). CONSTRAINED "
+         "UNPREDICTABLE encodings and faulting accesses are excluded and counted. Classes listed under (C) in reports/C03.md are unproved.",
+    technique="Lean 4 mirror of the lifter + class theorems over all words, addresses and states; executable differential"),
 }
 
 checks = []
